@@ -26,7 +26,7 @@ BATCH = 150                                       # cases (records) per parse_fi
 GCC_BATCH = 1500
 BATCH_TIMEOUT = 20
 LINE_TIMEOUT = 5
-SAMPLE_PER_CLASS = {"quick": 160, "thorough": 600}
+SAMPLE_PER_CLASS = {"quick": 64, "thorough": 400}
 CONFIRM_CAP = 400
 GCC = ["gcc", "-E", "-P", "-x", "c++", "-std=gnu++20", "-w"]
 
@@ -35,7 +35,10 @@ EVENT_CLASS = {
     "fnblock": "C08-fn-reentry",
     "argpaint": "C08-arg-repaint",
     "vaoptempty": "C08-vaopt-empty-arg",
-    "nestedempty": "C08-nested-empty-arg",
+    "strmissing": "C08-stringify-missing-arg",
+    "strva": "C08-stringify-va-spacing",
+    "pasteempty": "C08-paste-placemarker",
+    "hidearg": "C08-arg-outer-hidden",
 }
 
 # --------------------------------------------------------------------------- rendering
